@@ -155,6 +155,12 @@ def job(args):
                 out['ld_all'] = [p.idx for p in l4.pulses]
                 m.f = 29.98
                 out['ld_listing'] = m.loads_as_mininec()
+                # what the system matrix sees of these attachments: every attached pulse once, with its own weight
+                m.Z = np.zeros((len(m.pulses), len(m.pulses)), dtype=complex)
+                m.compute_impedance_matrix_loads()
+                out['diag'] = [complex(m.Z[i][i]) for i in range(len(m.pulses))]
+                out['offdiag'] = float(np.abs(m.Z - np.diag(np.diag(m.Z))).max()) if len(m.pulses) else 0.0
+                out['weights'] = [(2.0 if (np.asarray(p.ground).any() and m.media is not None) else 1.0) / float(m.m) for p in m.pulses]
         finally:
             M.format_float, sh.pulse.format_float = old
         return out
@@ -270,6 +276,14 @@ def job(args):
                 want.extend(n + 1 for n in o[key])
         gotn = [int(ln.split(':')[1].split(',')[0]) for ln in ll]
         goals.append(('load listing has one line per loaded pulse, naming it', z3.BoolVal(gotn == want)))
+        # (6) the matrix diagonal carries each attachment exactly once with the weight of that pulse
+        exp = [0j] * N
+        for key, zl in (('ld_kt', 5 + 1j), ('ld_a', 6 + 1j), ('ld_allt', 7 + 1j), ('ld_all', 8 + 1j)):
+            if not isinstance(o[key], tuple):
+                for n_ in o[key]:
+                    exp[n_] += -1j * zl * o['weights'][n_]
+        okd = o['offdiag'] == 0.0 and all(abs(x - y) <= 1e-12 * (1 + abs(y)) for x, y in zip(o['diag'], exp))
+        goals.append(('the system matrix gets every attached load exactly once on the diagonal of its pulse', z3.BoolVal(bool(okd))))
 
         for gname, goal in goals:
             on = '%s/path%d/%s' % (jname, pi, gname)
@@ -387,6 +401,19 @@ def replay(mm, name, c):
     m.register_load(l)
     if sorted(p.idx + 1 for p in l.pulses) != list(range(1, N + 1)):
         return ('C17:all', '%s tags %s: all loads pulses %s' % (name, c['tags'], sorted(p.idx + 1 for p in l.pulses)), rd)
+    # matrix effect of everything attached so far: once per attachment, weight of the pulse
+    m.f = 29.98
+    m.Z = np.zeros((N, N), dtype=complex)
+    m.compute_impedance_matrix_loads()
+    exp = np.zeros(N, dtype=complex)
+    for ld in m.loads:
+        for p in ld.pulses:
+            wgt = (2.0 if (np.asarray(p.ground).any() and m.media is not None) else 1.0) / m.m
+            exp[p.idx] += -1j * ld.impedance(m.f, p) * wgt
+    d = np.diag(m.Z)
+    if np.abs(d - exp).max() > 1e-12 * (1 + np.abs(exp).max()):
+        k_ = int(np.argmax(np.abs(d - exp)))
+        return ('C17:matrix-effect', '%s tags %s: pulse %d receives %.3f times the load attached to it' % (name, c['tags'], k_ + 1, abs(d[k_] / exp[k_]) if exp[k_] else float('inf')), rd)
     return None
 
 
